@@ -18,8 +18,11 @@ def _c(v):
 def apply_op(athlib, c, op):
     """op = ('add', bib:int) | ('bar', h:int hundredths) | ('trial', bib:int, t in 'oxpr'); returns outcome string"""
     try:
-        if op[0] == 'add':
-            c.add_jumper(bib=str(op[1]))
+        if op[0] == 'peek':
+            c.to_matrix(); c.trials; c.remaining; [j.place for j in c.jumpers]
+        elif op[0] == 'add':
+            if op[1] == 0: c.add_jumper()                      # no bib given: the library files the athlete under its default bib '0'
+            else: c.add_jumper(bib=str(op[1]))
         elif op[0] == 'bar':
             c.set_bar_height(op[1] / 100.0 if getattr(c, '_verif_float', False) else D(op[1]) / 100)
         else:
@@ -44,7 +47,7 @@ def snap(c):
     rem = ','.join(j.bib for j in c.remaining)
     acts = []
     for a, v in c.actions:
-        if a == 'add_jumper': acts.append('a%s' % v.get('bib'))
+        if a == 'add_jumper': acts.append('a%s' % v.get('bib', '0'))
         elif a == 'set_bar_height': acts.append('b%d' % _c(v))
         else: acts.append('%s%s' % (c.action_letter[a], v))
     tr = ','.join('%s@%d%s' % (b, _c(h), r) for b, h, r in c.trials)
@@ -52,6 +55,7 @@ def snap(c):
                                   ' '.join(acts), tr)
 
 def op_line(op):
+    if op[0] == 'peek': return None                          # read-only views: nothing for the model to do
     if op[0] == 'add': return 'hj\tadd\t%d' % op[1]
     if op[0] == 'bar': return 'hj\tbar\t%d' % op[1]
     return 'hj\ttrial\t%d\t%s' % (op[1], op[2])
@@ -59,7 +63,8 @@ def op_line(op):
 def fmt_ops(ops):
     out = []
     for op in ops:
-        if op[0] == 'add': out.append('add %d' % op[1])
+        if op[0] == 'peek': out.append('to_matrix()')
+        elif op[0] == 'add': out.append('add %d' % op[1])
         elif op[0] == 'bar': out.append('bar %.2f' % (op[1] / 100))
         else: out.append('%s %d' % (TR[op[2]], op[1]))
     return out
@@ -69,7 +74,9 @@ def replay_py(ops, float_heights=False):
     L = ['from decimal import Decimal as D', 'c = athlib.HighJumpCompetition()', 'log = []', 'def _do(f, *a):',
          '    try: f(*a); log.append("ok")', '    except Exception as e: log.append(type(e).__name__)']
     for op in ops:
-        if op[0] == 'add': L.append("_do(lambda: c.add_jumper(bib=%r))" % str(op[1]))
+        if op[0] == 'peek': L.append("_do(c.to_matrix)")
+        elif op[0] == 'add' and op[1] == 0: L.append("_do(lambda: c.add_jumper())")
+        elif op[0] == 'add': L.append("_do(lambda: c.add_jumper(bib=%r))" % str(op[1]))
         elif op[0] == 'bar' and float_heights: L.append("_do(c.set_bar_height, %r)" % (op[1] / 100.0))
         elif op[0] == 'bar': L.append("_do(c.set_bar_height, D(%r))" % ('%.2f' % (op[1] / 100)))
         else: L.append("_do(c.%s, %r)" % (TR[op[2]], str(op[1])))
@@ -231,7 +238,7 @@ ATT_ALL = ATT + ['x', 'xx']
 ATT_W_ALL = ATT_W + [1, 1]
 
 def gen_competition(rng, athlib, nath=None, nheights=None, jo_heights=3, att_choice=None, jo_letters=('oxr', [4, 5, 1]),
-                    on_call=None, probes=False, float_heights=False, h0=100, steps=(3, 5)):
+                    on_call=None, probes=False, float_heights=False, h0=100, steps=(3, 5), peek=False):
     """drive a real competition + referee through a structured complete competition; returns
     (ops, comp, ref). Within a height athletes take trials round-robin (attempt 1 of everybody, ...).
     on_call(c, ref, ops_so_far, op) -> outcome may replace the plain application (it must record accepted
@@ -249,6 +256,9 @@ def gen_competition(rng, athlib, nath=None, nheights=None, jo_heights=3, att_cho
         if out == 'ok': r.record(op)
         return out
     def probe():
+        if peek and rng.random() < 0.6:
+            # read-only views of the competition (card export, trial list, who is left): looking must not change anything
+            apply_op(athlib, c, ('peek',)); ops.append(('peek',))
         if not probes: return
         for b in range(1, nath + 1):
             if rng.random() < 0.5:
